@@ -29,9 +29,9 @@ def run(ctx):
                 'against a real directory tree with two search directories, through the mounted application (tolerant and strict slash mode) and through the '
                 'endpoint directly: 200 only with the exact bytes/length of a regular file inside a root at that path, never a secret, otherwise 403/404 '
                 '(non-breaking); files inside a root are served at their path' % NS),
-    ] + ([Ob('tree4', 'ob_tree4', '', packed=[('via', 3), ('s0', NS), ('s1', NS), ('s2', NS), ('s3', NS)],
-               cells=[('via%d_s%d_%d' % (v, a, b), [{'via': v, 's0': a, 's1': b}]) for v in range(3) for a in range(NS) for b in range(NS)], timeout=tmo,
-               confirm='confirm_tree4', desc='4 segments')] if T else []) + [
+    ] + ([Ob('tree4', 'ob_tree4core', '', packed=[('via', 3), ('s0', 9), ('s1', 9), ('s2', 9), ('s3', 9)],
+               cells=[('via%d_s%d_%d' % (v, a, b), [{'via': v, 's0': a, 's1': b}]) for v in range(3) for a in range(9) for b in range(9)], timeout=tmo,
+               confirm='confirm_tree4core', desc='4 segments out of the 9 core segments')] if T else []) + [
         Ob('faults', 'ob_faults', '', packed=[('file_i', 4), ('ims', 2, 'bool'), ('vanish', 2, 'bool'), ('fail_at', 12), ('err_i', 5)],
            cells=[('file%d_ims%d' % (f, i), [{'file_i': f, 'ims': i}]) for f in range(4) for i in range(2)],
            timeout=tmo, twin_fn='tw_faults', twin_pre=[{'file_i': 1, 'ims': 0}], confirm='confirm_faults',
